@@ -39,6 +39,9 @@ type FuncContract struct {
 	CallPre    map[string][]*Clause // obligations on the arguments of calls made by this function, keyed by callee
 	DynMod     []*Clause            // assumed frame of dynamic calls in this function
 	HasDynMod  bool
+	UnknownLikeDyn bool // calls without a contract are assumed to respect the dyncall frame
+	SendPre    []*Clause // obligations on every channel send of the function (`ch` = the channel)
+	NoMonitor  bool      // exempt from re-establishing monitor invariants (configuration-time function)
 	AtUnlock   []*Clause // assertions checked at every Unlock of the function (may mention locals and atlock())
 	Checks     []*Clause // internal postconditions (may mention locals; not exported to callers)
 	Functional bool
@@ -90,6 +93,7 @@ type Monitor struct {
 	Field   string // mutex field
 	Guards  []string
 	Inv     *Clause
+	Owner   string // function key of the single writer goroutine: its own reads need no lock
 	File    string
 }
 
@@ -106,7 +110,7 @@ func newContracts() *Contracts {
 	return &Contracts{Funcs: map[string]*FuncContract{}, Specs: map[string]*SpecFunc{}, Decls: map[string][]string{}}
 }
 
-var keywordRe = regexp.MustCompile(`^(func|requires|ensures_on_panic|ensures|check|functional|closeonce|callpre|dyncall|ghost|atunlock|modifies|pure|trusted|strict|mathint|maypanic|nobody|loop|param|spec|axiom|lemma|monitor|allocbound|decl)\b`)
+var keywordRe = regexp.MustCompile(`^(func|requires|ensures_on_panic|ensures|check|functional|closeonce|callpre|dyncall|ghost|atunlock|sendpre|nomonitor|unknowncalls|modifies|pure|trusted|strict|mathint|maypanic|nobody|loop|param|spec|axiom|lemma|monitor|allocbound|decl)\b`)
 
 // preprocess rewrites `A ==> B` into implies(A, B) (lowest precedence within its paren group)
 // and `A <==> B` into iff(A, B).
@@ -327,6 +331,22 @@ func (cs *Contracts) parseContractFile(path string, content []byte, pkgName stri
 						cur.DynMod = append(cur.DynMod, c)
 					}
 				}
+			}
+		case "sendpre":
+			if cur == nil {
+				fail(it.line, "sendpre outside func")
+				continue
+			}
+			if c := mk(rest, it.line); c != nil {
+				cur.SendPre = append(cur.SendPre, c)
+			}
+		case "nomonitor":
+			if cur != nil {
+				cur.NoMonitor = true
+			}
+		case "unknowncalls":
+			if cur != nil {
+				cur.UnknownLikeDyn = true
 			}
 		case "atunlock":
 			if cur == nil {
@@ -589,6 +609,11 @@ func (cs *Contracts) parseMonitor(path string, line int, rest, pkgName string) {
 		inv = strings.TrimSpace(rest[i+len(" invariant "):])
 		rest = rest[:i]
 	}
+	owner := ""
+	if i := strings.Index(rest, " owner "); i >= 0 {
+		owner = strings.TrimSpace(rest[i+len(" owner "):])
+		rest = rest[:i]
+	}
 	parts := strings.SplitN(rest, " guards ", 2)
 	if len(parts) != 2 {
 		cs.Errors = append(cs.Errors, fmt.Sprintf("%s:%d: monitor needs 'guards'", path, line))
@@ -599,7 +624,7 @@ func (cs *Contracts) parseMonitor(path string, line int, rest, pkgName string) {
 		cs.Errors = append(cs.Errors, fmt.Sprintf("%s:%d: monitor needs Type.field", path, line))
 		return
 	}
-	m := &Monitor{PkgName: pkgName, Type: tf[0], Field: tf[1], File: path}
+	m := &Monitor{PkgName: pkgName, Type: tf[0], Field: tf[1], File: path, Owner: qualifyFuncName(owner, pkgName)}
 	for _, g := range strings.Split(parts[1], ",") {
 		m.Guards = append(m.Guards, strings.TrimSpace(g))
 	}
